@@ -46,6 +46,7 @@ def strategy(tier):
         st.tuples(st.just("lossy"), dur, st.lists(st.integers(0, 1), min_size=2, max_size=7)),
         st.tuples(st.just("noping"), dur, st.lists(st.integers(0, 1), min_size=2, max_size=7)),
         st.tuples(st.just("slowhs"), dur, st.integers(2, 9)),
+        st.tuples(st.just("nostatu"), dur, st.just(None)),
     ).map(list)
     when = st.one_of(st.floats(0.0, 9.0), st.floats(0.0, 9.0), st.floats(9.0, 400.0)).map(lambda x: round(x, 2))
     action = st.tuples(when, st.sampled_from(["reset", "reset", "setinfo"])).map(list)
@@ -70,6 +71,9 @@ def enumerated(tier):
                 for mode in ("idle", "active"):
                     fam.append(dict({"phases": [["healthy", 0.45, None], ["slowhs", d1, k]] + [list(m) for m in mid] + [["blackout", 400.0, None]],
                                      "actions": [], "jitter": [], "suspend": [], "poke": k, "suspend_map": {}}, **({"mode": "active"} if mode == "active" else {})))
+    # the handshake gets every answer but the status block
+    for d1 in (70.0, 130.0):
+        fam.append({"phases": [["healthy", 0.45, None], ["nostatu", d1, None]], "actions": [], "jitter": [], "suspend": [], "poke": 0, "suspend_map": {}})
     return len(fam), lambda i: fam[i]
 
 
